@@ -156,6 +156,17 @@ def run(ctx):
                 recs.append({'ev': 'array', 'tag': vtag, 'ref': refa, 'basis': basis, 'dd': dd, 'ongrid': bool(oka), 'rows4': r4, 'newrows4': n4, 'nfull': int(full.natoms), 'oldid': [int(x) for x in disl.atoms.old_id],
                              'pbc': [bool(x) for x in disl.pbc], 'cut': cut + 1, 'basetype': [int(t) for t in base.atoms.atype],
                              'fulltype': [int(t) for t in full.atoms.atype], 'mindist': int(round(mind * S)), 'cutoff': int(round(0.5 * S))})
+                # disregistry of the array across the slip plane: from (nearly) nothing to (nearly) one Burgers vector
+                if cname != 'hcp0' and not center.any() and (m, n) in (('y', 'z'), ('x', 'y'), ('z', 'x')):      # (anti-cyclic assignments: known findings, DESIGN 6.2)
+                    coord_, dis_ = disregistry(base, disl, m=d.dislsol.m, n=d.dislsol.n, planepos=np.zeros(3))
+                    b_ = d.dislsol.burgers
+                    bn_ = np.linalg.norm(b_)
+                    pr_ = dis_ @ b_ / bn_ ** 2
+                    tot_ = abs(pr_[0] - pr_[-1])
+                    perp_ = np.abs(dis_ - np.outer(pr_, b_)).max() / bn_
+                    if len(coord_) >= 12 and mults[mot] >= 6:        # a profile long enough for its ends to be in the far field
+                      recs.append({'ev': 'disreg', 'tag': vtag + ':array', 'total': int(round(tot_ * S)), 's': S, 'perp': int(round(perp_ * S)), 'tail': int(round(0.25 * S)),
+                                   'lo': int(round(float(pr_.min()) * S)), 'hi': int(round(float(pr_.max()) * S))})
             except ValueError as e:
                 if 'slip plane' in str(e) or 'not an integer' in str(e) or 'Deleted atom mismatch' in str(e):
                     refusals += 1
